@@ -110,6 +110,7 @@ func WaitPending() { pendingClose.Wait() }
 
 func resumeHook(name string) {
 	if name != "cf.beforeWait" {
+		bmPauseHook(name) // block-manager family (bmcrash.go): the other pause points
 		return
 	}
 	if v, ok := resumeByGID.Load(curGID()); ok {
